@@ -1213,7 +1213,8 @@ def desNodeAlone (n : NodeP) : Except Err (IRNode × List IRValue) := do
 * the entries of a value that is both a graph input and a graph output (pass-through) are merged:
   one `Value` carries one type / shape / doc / metadata, the output entry wins (`mergeVI`);
 * quantization annotations are put in the order inputs, initializers, node outputs, graph outputs
-  (an annotation list is a map keyed by tensor name; only its order changes);
+  (an annotation list is a map keyed by tensor name; only its order changes; a value listed several
+  times among the outputs is annotated once);
 * below IR version 10 a function's value_info lives in the main graph under
   `domain::name/value` names (the experimental encoding, serde.py:700-745, 1737-1808): those
   entries are kept (after the graph's own, in the order functions / inputs / node outputs).
@@ -1340,7 +1341,7 @@ def normGraph : GraphP → GraphP
       (normQuantFor quant
         (inputNames.filter (fun n => !initNames.contains n) ++ initNames
           ++ outs.filter (fun n => !outputNames.contains n)
-          ++ outputNames.filter (fun n => !inputNames.contains n && !initNames.contains n)))
+          ++ (dedupStr outputNames).filter (fun n => !inputNames.contains n && !initNames.contains n)))
       (normEntries metadata)
 end
 
@@ -1440,6 +1441,13 @@ def bstrIsUtf8 : BStr → Bool
   | .utf8 _ => true
   | .raw _ => false
 
+/-- several graph output entries may carry one name (E4): serde.py:869-884 applies every entry of a
+name to the ONE `Value` of that name and writes every entry from that value, so entries with one name
+must say the same (`canon` makes them so, see `Model/SerdeWide.lean`): same name -> identical entry -/
+def consOutputs : List ValueInfoP → Bool
+  | [] => true
+  | vo :: vos => vos.all (fun w => decide (w.name = vo.name → w = vo)) && consOutputs vos
+
 /-- names declared by a graph scope: inputs, initializers that are not inputs, node outputs -/
 def scopeNames (inputNames initNames outs : List String) : List String :=
   inputNames ++ initNames.filter (fun n => !inputNames.contains n) ++ outs
@@ -1480,8 +1488,9 @@ def wfNodes (scopes : Scopes) : List NodeP → Bool
 
 /-- graph: single assignment per scope (inputs, initializers, node outputs pairwise distinct and
 non-empty; an initializer may name an input), value_info only for non-input non-output names,
-graph outputs distinct; an output may be a graph input (pass-through, see `mergeVI`) or an
-initializer (constant output); annotations for declared names only. -/
+graph output entries with one name identical (`consOutputs`; distinct names is the special case);
+an output may be a graph input (pass-through, see `mergeVI`)
+or an initializer (constant output); annotations for declared names only. -/
 def wfGraph (outer : Scopes) : GraphP → Bool
   | .mk _ _ nodes initializers inputs outputs valueInfo quant metadata =>
     let inputNames := inputs.map (·.name)
@@ -1493,7 +1502,7 @@ def wfGraph (outer : Scopes) : GraphP → Bool
       && inputs.all wfVI && outputs.all wfVI && valueInfo.all wfVI
       && nodupStr (valueInfo.map (·.name))
       && valueInfo.all (fun vi => !inputNames.contains vi.name && !outputNames.contains vi.name)
-      && nodupStr outputNames
+      && consOutputs outputs
       && initializers.all (fun t => wfTensor t && validDType t.dataType)
       && nodupStr (quant.map (·.tensorName))
       && quant.all (fun a => names.contains a.tensorName && !a.params.isEmpty && wfEntries a.params)
